@@ -9,6 +9,7 @@
   (the same statement read right-to-left) changes no `Ok` answer.
 -/
 import ElfVerif.Lemmas.NoPanic
+import ElfVerif.Lemmas.FaultEquiv
 namespace Elf.C18
 
 /-- `p` is a prefix of `f`. -/
@@ -525,6 +526,102 @@ theorem find_common_data_mono {p f : Slice} (h : Prefix p f) (g : ElfBytes) (hg 
 theorem append_changes_nothing {p f : Slice} (h : Prefix p f) (g : ElfBytes) (hg : g.data = p)
     (o : Option (Table Dyn)) (hp : g.dynamic = .ok o) : (extend g f).dynamic = .ok o :=
   dynamic_mono h g hg o hp
+
+/-! ## The stream parser on a truncated stream
+
+  `PrefixOf p c`: the array `p` is `c` cut after `p.size` bytes (the file as left by a writer that
+  stopped there; read the other way, `c` is `p` with bytes appended).  `Twin` (Lemmas/FaultEquiv.lean)
+  relates a reader over `p` under ANY schedule to a fault-free reader over `c`. -/
+
+theorem history_headers (qs : List Query) (s : ElfStream) :
+    (qs.foldl (fun s q => q.after s) s).ehdr = s.ehdr ∧ (qs.foldl (fun s q => q.after s) s).shdrs = s.shdrs ∧
+    (qs.foldl (fun s q => q.after s) s).phdrs = s.phdrs := by
+  induction qs generalizing s with
+  | nil => exact ⟨rfl, rfl, rfl⟩
+  | cons q qs ih =>
+    obtain ⟨h1, h2, h3⟩ := ih (q.after s)
+    obtain ⟨g1, g2, g3⟩ := q.after_headers s
+    exact ⟨h1.trans g1, h2.trans g2, h3.trans g3⟩
+
+/-- **Opening a truncated stream**: if it succeeds, opening the complete stream succeeds with the
+    same headers; and after any history of queries on the truncated stream (whatever they returned)
+    its state is the complete stream's state with another reader — a `Twin` reader — so that every
+    `*_fault_free` theorem of C17 applies: whatever a query answers with `Ok` on the truncated
+    stream is what it answers on the complete one. -/
+theorem stream_prefix_twin (sp : Spec) (devp dev : Device) (hl : Legal dev.sched)
+    (hp : PrefixOf devp.content dev.content) (s : ElfStream) (d : Device)
+    (h : openStream sp devp = (.ok s, d)) (qs : List Query) :
+    ∃ s₀ d₀, openStream sp dev = (.ok s₀, d₀) ∧
+      Twin (qs.foldl (fun s q => q.after s) s).reader s₀.reader dev.content ∧
+      (qs.foldl (fun s q => q.after s) s).twin s₀.reader = s₀ := by
+  obtain ⟨s₀, d₀, h1, e1, e2, e3, ht⟩ := open_twin sp devp dev hl hp s d h
+  obtain ⟨p, hw, hr, hpp⟩ := ht
+  obtain ⟨g1, g2, g3⟩ := history_headers qs s
+  refine ⟨s₀, d₀, h1, ⟨p, history_winv qs s p hw, hr, hpp⟩, ?_⟩
+  unfold ElfStream.twin
+  cases s₀ with
+  | mk a b c r =>
+    simp only at e1 e2 e3
+    simp only [g1, g2, g3, e1, e2, e3]
+
+/-- instances: section data, symbol tables, the dynamic table, symbol versions, lookup by name -/
+theorem stream_section_data_prefix (sp : Spec) (devp dev : Device) (hl : Legal dev.sched)
+    (hp : PrefixOf devp.content dev.content) (s : ElfStream) (d : Device)
+    (h : openStream sp devp = (.ok s, d)) (qs : List Query) (sh : SectionHeader)
+    (v : Slice × Option CompressionHeader) (s' : ElfStream)
+    (hq : (qs.foldl (fun s q => q.after s) s).sectionData sh = (.ok v, s')) :
+    ∃ s₀ d₀ s₀', openStream sp dev = (.ok s₀, d₀) ∧ s₀.sectionData sh = (.ok v, s₀') := by
+  obtain ⟨s₀, d₀, h1, ht, he⟩ := stream_prefix_twin sp devp dev hl hp s d h qs
+  obtain ⟨s₀', g, _⟩ := sectionData_twin _ s₀.reader _ ht sh v s' hq
+  rw [he] at g
+  exact ⟨s₀, d₀, s₀', h1, g⟩
+
+theorem stream_symbol_table_prefix (sp : Spec) (devp dev : Device) (hl : Legal dev.sched)
+    (hp : PrefixOf devp.content dev.content) (s : ElfStream) (d : Device)
+    (h : openStream sp devp = (.ok s, d)) (qs : List Query) (ty : Nat)
+    (v : Option (Table Symbol × Slice)) (s' : ElfStream)
+    (hq : (qs.foldl (fun s q => q.after s) s).symbolTableOfType ty = (.ok v, s')) :
+    ∃ s₀ d₀ s₀', openStream sp dev = (.ok s₀, d₀) ∧ s₀.symbolTableOfType ty = (.ok v, s₀') := by
+  obtain ⟨s₀, d₀, h1, ht, he⟩ := stream_prefix_twin sp devp dev hl hp s d h qs
+  obtain ⟨s₀', g, _⟩ := symtab_twin _ s₀.reader _ ht ty v s' hq
+  rw [he] at g
+  exact ⟨s₀, d₀, s₀', h1, g⟩
+
+theorem stream_dynamic_prefix (sp : Spec) (devp dev : Device) (hl : Legal dev.sched)
+    (hp : PrefixOf devp.content dev.content) (s : ElfStream) (d : Device)
+    (h : openStream sp devp = (.ok s, d)) (qs : List Query)
+    (v : Option (Table Dyn)) (s' : ElfStream)
+    (hq : (qs.foldl (fun s q => q.after s) s).dynamic = (.ok v, s')) :
+    ∃ s₀ d₀ s₀', openStream sp dev = (.ok s₀, d₀) ∧ s₀.dynamic = (.ok v, s₀') := by
+  obtain ⟨s₀, d₀, h1, ht, he⟩ := stream_prefix_twin sp devp dev hl hp s d h qs
+  obtain ⟨s₀', g, _⟩ := dynamic_twin _ s₀.reader _ ht v s' hq
+  rw [he] at g
+  exact ⟨s₀, d₀, s₀', h1, g⟩
+
+theorem stream_symbol_versions_prefix (sp : Spec) (devp dev : Device) (hl : Legal dev.sched)
+    (hp : PrefixOf devp.content dev.content) (s : ElfStream) (d : Device)
+    (h : openStream sp devp = (.ok s, d)) (qs : List Query)
+    (v : Option SymbolVersionTable) (s' : ElfStream)
+    (hq : (qs.foldl (fun s q => q.after s) s).symbolVersionTable = (.ok v, s')) :
+    ∃ s₀ d₀ s₀', openStream sp dev = (.ok s₀, d₀) ∧ s₀.symbolVersionTable = (.ok v, s₀') := by
+  obtain ⟨s₀, d₀, h1, ht, he⟩ := stream_prefix_twin sp devp dev hl hp s d h qs
+  obtain ⟨s₀', g, _⟩ := symver_twin _ s₀.reader _ ht v s' hq
+  rw [he] at g
+  exact ⟨s₀, d₀, s₀', h1, g⟩
+
+theorem stream_by_name_prefix (sp : Spec) (devp dev : Device) (hl : Legal dev.sched)
+    (hp : PrefixOf devp.content dev.content) (s : ElfStream) (d : Device)
+    (h : openStream sp devp = (.ok s, d)) (qs : List Query) (name : Slice)
+    (v : Option SectionHeader) (s' : ElfStream)
+    (hq : (qs.foldl (fun s q => q.after s) s).sectionHeaderByName name = (.ok v, s')) :
+    ∃ s₀ d₀ s₀', openStream sp dev = (.ok s₀, d₀) ∧ s₀.sectionHeaderByName name = (.ok v, s₀') := by
+  obtain ⟨s₀, d₀, h1, ht, he⟩ := stream_prefix_twin sp devp dev hl hp s d h qs
+  obtain ⟨s₀', g, _⟩ := byName_twin _ s₀.reader _ ht name v s' hq
+  rw [he] at g
+  exact ⟨s₀, d₀, s₀', h1, g⟩
+
+example : PrefixOf (#[1, 2, 3, 4, 5].extract 0 3 : Array UInt8) #[1, 2, 3, 4, 5] := by
+  constructor <;> decide
 
 /- Non-vacuity: a 3-byte prefix of a 5-byte window; a range that fits both. -/
 example : Prefix ⟨#[1, 2, 3, 4, 5], 0, 3⟩ ⟨#[1, 2, 3, 4, 5], 0, 5⟩ := ⟨rfl, rfl, by decide⟩
